@@ -449,6 +449,20 @@ func c07ReplayStates(t *testing.T, rep *kit.Report, w *c07World, b kit.V, key st
 				return
 			}
 			mem.cur = nxt
+			if r1, ok := nxt.(*tssRoundOneState); ok {
+				// the TSS party context the real member set up = identities of its operating view
+				var got []int
+				for _, id := range r1.member.tssParameters.Parties().IDs() {
+					got = append(got, int(new(big.Int).Sub(id.KeyInt(), w.seed).Int64()))
+				}
+				want := c07View(w.n, excluded, i)
+				if fmt.Sprint(got) != fmt.Sprint(want) || r1.member.tssParameters.Threshold() != 1 ||
+					int(new(big.Int).Sub(r1.member.tssParameters.PartyID().KeyInt(), w.seed).Int64()) != i {
+					rep.Diverge(key+":parties", fmt.Sprintf("%s: the TSS party context is not the member's operating view", where), st.X, want, got)
+					return
+				}
+				rep.Count("party_contexts", 1)
+			}
 		case "Finish":
 			nxt, err := mem.cur.Next()
 			fs, isFinal := mem.cur.(*finalizationState)
@@ -828,9 +842,47 @@ func c07Execute(t *testing.T, rep *kit.Report, b kit.V, bi int, budget time.Dura
 			break
 		}
 	}
+	// the behaviour contains every delivery the operating members need; from here on the network behaves like the real one
+	// with retransmissions: everything that was sent keeps being delivered to everybody (duplicates and rejected messages
+	// are harmless for a correct member)
+	lastFlush := time.Now()
+	flush := func() {
+		if time.Since(lastFlush) < 300*time.Millisecond {
+			return
+		}
+		lastFlush = time.Now()
+		hub.mu.Lock()
+		type pend struct {
+			k c07MsgKey
+			m net.TaggedMarshaler
+		}
+		var all []pend
+		for k, m := range hub.sent {
+			all = append(all, pend{k, m})
+		}
+		var rcv []int
+		for i := range hub.handlers {
+			rcv = append(rcv, i)
+		}
+		hub.mu.Unlock()
+		for _, p := range all {
+			for _, i := range rcv {
+				if _, fin := results[i]; fin {
+					continue
+				}
+				if _, err := hub.deliver(i, p.m, w.keys[p.k.s]); err != nil {
+					t.Fatalf("harness: flush: %v", err)
+				}
+			}
+		}
+		counts["flush_rounds"]++
+	}
 	// every operating member must now complete
 	done := waitFor(func() bool {
 		drain()
+		if !aborted {
+			flush()
+		}
 		for _, o := range operating {
 			if results[o] == nil {
 				return false
